@@ -679,6 +679,86 @@ def _b_pow(d, c, a):
 
 
 # --------------------------------------------------------------------------
+# what the documentation says about ``.adjoint`` of a built configuration
+
+OFFERED, REFUSED, SILENT = 'offered', 'refused', 'silent'
+
+COMBINATORS = ('sum', 'sub', 'comp', 'pow', 'neg', 'lvec', 'rvec', 'flvec',
+               'broadcast', 'reduction', 'diagonal', 'pspaceop',
+               'grad_deriv', 'chain_deriv', 'pwprod_deriv')
+SCALAR_COMBINATORS = ('lscal', 'rscal', 'rscal_mul', 'div')
+# linear classes without an ``adjoint`` of their own: ``Operator.adjoint``
+# documents OpNotImplementedError
+NO_ADJOINT_ENTRIES = ('lincomb', 'power1', 'ufunc_lin')
+ORTH_WAVELETS = ['haar', 'db2', 'db3', 'sym2', 'sym3', 'coif1']
+BIORTH_WAVELETS = ['bior2.2', 'bior1.3', 'rbio1.3', 'rbio2.2']
+
+
+def _field_kind(space):
+    return 'c' if flat.is_complex_space(space) else 'r'
+
+
+def has_complex_scalar(node):
+    """A complex-typed scalar multiple somewhere in the tree: its conjugate
+    is refused (TypeError, documented field check) by an operand whose
+    range / domain is a real space."""
+    if node.entry in SCALAR_COMBINATORS and \
+            isinstance(node.desc['s'], complex):
+        return True
+    return any(has_complex_scalar(k) for k in node.children)
+
+
+def adjoint_expectation(node):
+    """``(kind, exception types, reason)`` for ``node.op.adjoint``, derived
+    from the documentation of the generated configuration.
+
+    * OFFERED: the class documents an adjoint for this configuration: any
+      exception (or ``None``) is a violation;
+    * REFUSED: the documentation names the refusal; only the listed
+      exception types pass, a returned adjoint is checked like any other;
+    * SILENT: the documentation does not say; whatever happens is counted
+      as ``adjoint_unavailable`` (listed in the check's ASSUMPTIONS).
+    """
+    from odl.operator.operator import OpNotImplementedError
+    e, d, A = node.entry, node.desc, node.op
+    if node.children and any(not k.available for k in node.children) and \
+            e != 'adjoint':
+        return SILENT, (), 'an operand offers no adjoint (inherited)'
+    if e == 'adjoint':
+        # the same object was examined as operand.adjoint.adjoint already
+        return SILENT, (), 'adjoint of an adjoint (see clause adjadj)'
+    if e in COMBINATORS:
+        return OFFERED, (), ('all operands of this {} offer adjoints and the '
+                             'rule only documents a refusal for non-linear '
+                             'operands'.format(e))
+    if e in SCALAR_COMBINATORS:
+        if isinstance(d['s'], complex) and \
+                _field_kind(A.domain) != _field_kind(A.range):
+            return REFUSED, (TypeError,), (
+                'conjugated complex scalar outside the field of the real '
+                'space (documented TypeError of the scalar multiples)')
+        return OFFERED, (), 'scalar multiple of an operator with adjoint'
+    if e in NO_ADJOINT_ENTRIES:
+        return REFUSED, (OpNotImplementedError,), (
+            'class defines no adjoint: Operator.adjoint documents '
+            'OpNotImplementedError')
+    if e == 'const_zero':
+        return SILENT, (), ('ConstantOperator.adjoint: "only defined if the '
+                            'operator is the constant operator" (returns None)')
+    if e == 'matrix' and not np.can_cast(A.range.dtype, A.domain.dtype):
+        return SILENT, (), ('range dtype not castable to the domain dtype '
+                            '(complex matrix on a real domain, float32 -> '
+                            'float64): the constructor of the adjoint matrix '
+                            'operator refuses the cast (ValueError)')
+    if e in ('wavelet', 'wavelet_inv'):
+        if d['wavelet'] in BIORTH_WAVELETS:
+            return REFUSED, (OpNotImplementedError,), (
+                'documented: OpNotImplementedError if is_orthogonal is False')
+        return OFFERED, (), 'orthogonal wavelet: adjoint documented'
+    return OFFERED, (), 'the class documents an adjoint for linear instances'
+
+
+# --------------------------------------------------------------------------
 # strategies: spaces
 
 def _small_shape(draw, min_side=1, max_size=8, max_ndim=2):
@@ -1268,9 +1348,6 @@ def fam_fourier(draw):
     return _case('fourier', spaces, op)
 
 
-ORTH_WAVELETS = ['haar', 'db2', 'db3', 'sym2', 'sym3', 'coif1']
-
-
 @st.composite
 def fam_wavelet(draw):
     field = draw(st.sampled_from(['real', 'real', 'complex']))
@@ -1292,7 +1369,9 @@ def fam_wavelet(draw):
     sd = draw(discr_sd(field, shape=shape,
                        bdry=draw(st.sampled_from([False, False, None]))))
     e = draw(st.sampled_from(['wavelet', 'wavelet', 'wavelet_inv']))
-    op = {'e': e, 'sp': 'X', 'wavelet': draw(st.sampled_from(ORTH_WAVELETS)),
+    # biorthogonal wavelets document a refusal (OpNotImplementedError)
+    names = BIORTH_WAVELETS if draw(st.integers(0, 4)) == 0 else ORTH_WAVELETS
+    op = {'e': e, 'sp': 'X', 'wavelet': draw(st.sampled_from(names)),
           'nlevels': nlevels, 'axes': axes}
     return _case('wavelet', {'X': sd}, op)
 
@@ -1688,15 +1767,18 @@ def fam_blocks(draw):
                          wkinds=('none', 'const')))
     sdy['dtype'] = sdx['dtype']
     U = Universe(field, sdx, sdy)
-    nd = draw(st.integers(1, 3))
-    nr = draw(st.integers(1, 3))
+    # (rows, columns) of the block matrix; non-square shapes on purpose
+    nr, nd = draw(st.sampled_from([(1, 2), (2, 1), (2, 3), (3, 2), (2, 2),
+                                   (1, 3), (3, 1), (1, 1), (3, 3), (2, 3),
+                                   (3, 2)]))
     if draw(st.booleans()):
         pd, pr = ['X'] * nd, ['X'] * nr     # all blocks X -> X
     else:
         pd = [draw(st.sampled_from(['X', 'Y'])) for _ in range(nd)]
         pr = [draw(st.sampled_from(['X', 'Y'])) for _ in range(nr)]
-    e = draw(st.sampled_from(['pspaceop', 'pspaceop', 'broadcast',
-                              'reduction', 'diagonal', 'repeat']))
+    e = draw(st.sampled_from(['pspaceop', 'pspaceop', 'pspaceop',
+                              'broadcast', 'reduction', 'diagonal',
+                              'repeat']))
     if e == 'pspaceop':
         wd = draw(st.sampled_from([None] * 9 + ['w']))
         dom = ['prod', pd] + ([draw(pweights(nd, ('const', 'array')))]
